@@ -362,7 +362,7 @@ struct Gen {
     if (op == OP_M_SUBVIEW_WRITE) s.op.c = (uint8_t)rng.below(3);
     if (op == OP_M_COEFFWRITE || op == OP_TM_COEFFWRITE) s.op.variant = (uint8_t)rng.below(3);
     if (op == OP_M_MOVE_ASSIGN && rng.chance(0.5)) s.op.variant |= V_ALT;
-    if (op == OP_M_MOVE_ASSIGN || op == OP_TM_MOVE_ASSIGN) s.op.c = (uint8_t)rng.below(12);
+    if (op == OP_M_MOVE_ASSIGN || op == OP_TM_MOVE_ASSIGN || op == OP_CTOR) s.op.c = (uint8_t)rng.below(20);
     s.op.ka = (uint8_t)rng.below(3);
     s.op.kb = (uint8_t)rng.below(3);
     if (inf.cls == C_MUT_E || inf.cls == C_MUT_T) s.op.ka = (uint8_t)rng.below(2);
